@@ -222,11 +222,15 @@ def complete (s : PState) (c : Completion) : PState :=
         else s.ttl
       active := s.active.filter (· != s.gen) }
 
-/-- the flush callback's "update bounds" block: `if len(pipelinedStart) == 0 || pipelinedStart > startKey`, same for the end -/
+/-- `kv.NextKey`: the least byte string greater than `k` -/
+def nextKey (k : Bytes) : Bytes := k ++ [0]
+
+/-- the flush callback's "update bounds" block: `if len(pipelinedStart) == 0 || pipelinedStart > startKey` for the start;
+    the end is the EXCLUSIVE bound `NextKey(largest key)`: `if len(pipelinedEnd) == 0 || pipelinedEnd <= endKey` -/
 def updBounds (b : Bytes × Bytes) (ks : List Bytes) : Bytes × Bytes :=
   let lo := minKey ks (ks.headD [])
   let hi := maxKey ks (ks.headD [])
-  (if b.1.isEmpty || Bytes.lt lo b.1 then lo else b.1, if b.2.isEmpty || Bytes.lt b.2 hi then hi else b.2)
+  (if b.1.isEmpty || Bytes.lt lo b.1 then lo else b.1, if b.2.isEmpty || Bytes.le b.2 hi then nextKey hi else b.2)
 
 /-- the bounds after the callback has seen the non-empty key batches `bs` (oldest first) -/
 def boundsOf (bs : List (List Bytes)) : Bytes × Bytes := bs.foldl updBounds ([], [])
@@ -300,9 +304,10 @@ def step (s : PState) : Op → PState × Out
   | .stage => ({ s with stages := s.mbuf :: s.stages }, .handle (s.stages.length + 1))
   | .release => ({ s with stages := s.stages.tail }, .ok)
   | .cleanup =>
+    -- `p.batchGetCache = nil; p.memDB.Cleanup(h)`
     match s.stages with
-    | [] => (s, .ok)
-    | m :: rest => ({ s with mbuf := m, stages := rest }, .ok)
+    | [] => ({ s with cache := none }, .ok)
+    | m :: rest => ({ s with mbuf := m, stages := rest, cache := none }, .ok)
 
 def run (s : PState) : List Op → PState
   | [] => s
@@ -345,16 +350,6 @@ def stepBoth (σ : PState × Spec) (op : Op) : (PState × Spec) × Out :=
 def runBoth (σ : PState × Spec) : List Op → PState × Spec
   | [] => σ
   | op :: ops => runBoth (stepBoth σ op).1 ops
-
-/-- hypothesis of the proved part of `get_latest_any_tier`: `BatchGet` is not called while a staging handle is open
-    (the cache it fills is dropped by `Flush` only, not by `Cleanup`) -/
-def okOp (s : PState) : Op → Bool
-  | .batchGet _ => s.stages.isEmpty
-  | _ => true
-
-def RunOk (s : PState) : List Op → Prop
-  | [] => True
-  | op :: ops => okOp s op = true ∧ RunOk (step s op).1 ops
 
 /-- `Commit` of a pipelined transaction as far as the buffer is concerned (2pc.go:execute): `Flush(true)`, `FlushWait()` -/
 def commitOuts (s : PState) (mem : Nat) (late1 late2 : Completion) : Out × Out :=
